@@ -41,8 +41,3 @@ for _f in sorted(_glob.glob(_os.path.join(_os.path.dirname(_os.path.abspath(__fi
     _m = _importlib.import_module('checks.' + _os.path.basename(_f)[:-3])
     CHECKS.update(getattr(_m, 'CHECKS', {}))
     NOT_APPLICABLE.update(getattr(_m, 'NOT_APPLICABLE', {}))
-
-# checks that are being reconciled with the merged tree are not claimed until they are green again
-for _id, _why in {'C10': 'check built (coq/RouterLife/*.v, checks/c10.py, 21 theorems) but being reconciled with the D16 repair of router.go merged after it; not claimed until green on the merged tree'}.items():
-    if _id in CHECKS:
-        del CHECKS[_id]; NOT_APPLICABLE[_id] = _why
